@@ -93,6 +93,11 @@ def run(ctx):
     ctx.rule("R13.h", "namespace model: ParameterizedMetaclass.__setattr__ / _clear_params_cache, Parameters.add_parameter and the _cls_parameters property interpreted abstractly on the hierarchy "
                       "A <- B <- C (B overrides one parameter) under every history of up to 3 class-level operations (namespace reads, value sets, Parameter sets, add_parameter on any class, 1830 histories) and, for multiple inheritance, on the diamond D(B, E) over A with an override on E only (up to 2 operations): "
                       "every .param lookup lists exactly the names attribute lookup finds and, for each, the very Parameter that governs attribute access; a class-level set is copy-on-write", floor=1)
+    ctx.rule("R13.i", "the namespace object keeps nothing of its own: inside class Parameters every store on the namespace (`self_.<attr> = ...`) targets a property of the class (the dispatcher "
+                      "state, kept in the private store) or cls / self in __init__; nothing is written into `self_.__dict__` and setattr(self_, ...) occurs only in __setstate__ -- a Parameter "
+                      "memoised on the (long-lived, class-level) namespace object is a second cache that no invalidation reaches", floor=8)
+    ctx.rule("R13.j", "the walk that drops the caches of the subclasses is complete: descendents(), interpreted abstractly on a diamond (D below B and C below A) and on a class whose primary base "
+                      "is a mixin, returns every transitive subclass exactly once", floor=1)
     ctx.rule("R13.f", "the memo is never mutated in place (it is handed out by reference); invalidation rebinds it", floor=1)
     ctx.not_decided += ["identity/equality of `.param[name]` and the governing descriptor after arbitrary histories (follows from R13.a-c but is not itself executed)"]
 
@@ -243,6 +248,36 @@ def run(ctx):
                      input="p = P(); p.param.n; P.n = 5  ->  p.n == 5 but p.param.values()['n'] == <old default>")
         else:
             ctx.ok("R13.g", g, g.node, "the Parameter looked up in the instance namespace (%s) is only used to choose the route; the value comes from getattr, the value store or the class-level Parameter" % ", ".join(sorted(tainted)))
+
+    # R13.i
+    PARAMS = "param.parameterized.Parameters"
+    props = {g.name for g in ctx.repo.funcs.values() if g.cls is not None and g.cls.qualname == PARAMS and g.has_decorator("property")}
+    n_i = 0
+    for g in ctx.repo.funcs.values():
+        if g.cls is None or g.cls.qualname != PARAMS or not g.params:
+            continue
+        me = g.params[0]
+        for n in ast.walk(g.node):
+            tg = n.targets if isinstance(n, ast.Assign) else ([n.target] if isinstance(n, (ast.AugAssign, ast.AnnAssign)) else [])
+            for t in tg:
+                if isinstance(t, ast.Attribute) and isinstance(t.value, ast.Name) and t.value.id == me:
+                    n_i += 1
+                    if t.attr in props or (g.name == "__init__" and t.attr in ("cls", "self")):
+                        ctx.ok("R13.i", g, n, "store through a property / constructor field")
+                    else:
+                        ctx.fail("R13.i", g, n, "%s stores `%s` on the namespace object itself: state kept there is not reached by the cache invalidation" % (g.qualname, norm(t)), key="%s::namespace-state::%s" % (g.qualname, t.attr))
+                if isinstance(t, ast.Subscript) and norm(t.value) in (me + ".__dict__", "vars(%s)" % me):
+                    n_i += 1
+                    ctx.fail("R13.i", g, n, "%s memoises `%s` on the namespace object: the next `.param.<name>` is a plain attribute read that no class-level set or add_parameter on an ancestor "
+                                            "invalidates, so `.param.<name>` and attribute access disagree" % (g.qualname, norm(t)), key="%s::namespace-memo" % g.qualname)
+            if isinstance(n, ast.Call) and norm(n.func) in ("setattr", "object.__setattr__") and n.args and norm(n.args[0]) == me and g.name != "__setstate__":
+                n_i += 1
+                ctx.fail("R13.i", g, n, "%s sets an attribute on the namespace object (`%s`)" % (g.qualname, norm(n)[:60]), key="%s::namespace-setattr" % g.qualname)
+    ctx.require(n_i >= 8, "fewer than 8 stores on the namespace object examined (%d)" % n_i)
+
+    # R13.j
+    from checks.shared import descendents_model
+    descendents_model(ctx, "R13.j")
 
     # model-level rule, run last
     from checks import namespace_model
